@@ -1,11 +1,23 @@
 package trie
 
-// uses verifNewTrie / eqBytes from c04_harness.go
+// reference map kept by the harness: parallel slices, last write wins, empty value = absent
+type verifRef struct {
+	keys [][]byte
+	vals [][]byte
+}
 
+func (r *verifRef) set(k, v []byte) {
+	r.keys = append(r.keys, k)
+	r.vals = append(r.vals, v)
+}
+
+// Key-value behaviour for every pair of symbolic keys (equal or different, sharing any prefix) and a
+// third symbolic probe key: update, overwrite, lookup of an absent key, delete.
 func Verif_C01_twoKeys() {
 	tr := verifNewTrie()
-	k1 := verifBytes("k1", 1)
-	k2 := verifBytes("k2", 1)
+	kl := verifParam("keyLen")
+	k1 := verifKey("k1", kl)
+	k2 := verifKey("k2", kl)
 	v1 := []byte("v1")
 	v2 := []byte("v2")
 	_ = tr.Update(k1, v1)
@@ -19,18 +31,93 @@ func Verif_C01_twoKeys() {
 	} else {
 		verifAssert(eqBytes(g1, v1), "k1 keeps its value")
 	}
-	k3 := verifBytes("k3", 1)
+	k3 := verifKey("k3", kl)
 	g3, _ := tr.Get(k3)
 	if !eqBytes(k3, k1) && !eqBytes(k3, k2) {
 		verifAssert(len(g3) == 0, "absent key reads nothing")
 	}
-	// delete k1, then k2 must still be there (unless same key)
+	// delete k1 (update with empty value), then k2 must still be there (unless same key)
 	_ = tr.Update(k1, nil)
 	g2b, _ := tr.Get(k2)
+	g1b, _ := tr.Get(k1)
+	verifAssert(len(g1b) == 0, "deleted key reads nothing")
 	if !eqBytes(k1, k2) {
 		verifAssert(eqBytes(g2b, v2), "k2 survives deletion of k1")
 	} else {
 		verifAssert(len(g2b) == 0, "deleted")
 	}
+	verifReach("end")
+}
+
+// Three symbolic keys with symbolic one-byte values, then Delete of the second; after every step all
+// three keys read back what the reference says; finally the leaves of the committed root are
+// exactly the live pairs, once each, with the original key bytes.
+func Verif_C01_threeKeysLeaves() {
+	tr, _ := verifNewTrieLevel(uint(verifParam("level")))
+	kl := verifParam("keyLen")
+	keys := [][]byte{verifKey("k1", kl), verifKey("k2", kl), verifKey("k3", kl)}
+	vals := [][]byte{verifBytes("v1", 1), verifBytes("v2", 1), verifBytes("v3", 1)}
+	check := func(upto int, deleted int) {
+		for i := 0; i < 3; i++ {
+			// expected: value of the last write j <= upto with keys[j] == keys[i]; none if deleted
+			var exp []byte
+			for j := 0; j <= upto && j < 3; j++ {
+				if eqBytes(keys[j], keys[i]) {
+					exp = vals[j]
+				}
+			}
+			if deleted >= 0 && eqBytes(keys[deleted], keys[i]) {
+				exp = nil
+			}
+			got, err := tr.Get(keys[i])
+			verifAssert(err == nil, "get without error")
+			verifAssert(eqBytes(got, exp), "get returns the last value written")
+		}
+	}
+	for i := 0; i < 3; i++ {
+		verifAssert(tr.Update(keys[i], vals[i]) == nil, "update ok")
+		check(i, -1)
+	}
+	verifAssert(tr.Delete(keys[1]) == nil, "delete ok")
+	check(2, 1)
+	verifAssert(tr.Commit() == nil, "commit ok")
+	check(2, 1)
+	root, _ := tr.RootHash()
+	ch, err := tr.GetAllLeavesOnChannel(root)
+	verifAssert(err == nil, "leaves channel")
+	seen := [3]int{}
+	n := 0
+	for leaf := range ch {
+		n++
+		hit := false
+		for i := 0; i < 3; i++ {
+			if eqBytes(leaf.Key(), keys[i]) {
+				hit = true
+				seen[i]++
+				got, _ := tr.Get(keys[i])
+				verifAssert(eqBytes(leaf.Value(), got), "leaf value equals the stored value")
+			}
+		}
+		verifAssert(hit, "every leaf has one of the original keys")
+	}
+	live := 0
+	for i := 0; i < 3; i++ {
+		got, _ := tr.Get(keys[i])
+		if len(got) > 0 {
+			first := true
+			for j := 0; j < i; j++ {
+				if eqBytes(keys[j], keys[i]) {
+					first = false
+				}
+			}
+			if first {
+				live++
+			}
+			verifAssert(seen[i] >= 1, "live key is enumerated")
+		} else {
+			verifAssert(seen[i] == 0, "deleted key is not enumerated")
+		}
+	}
+	verifAssert(n == live, "each live pair enumerated exactly once")
 	verifReach("end")
 }
